@@ -143,6 +143,15 @@ func ZZ_C20_Idle(kind, traffic, withInactive, panicFirst int) {
 		probe.panicInactive = withInactive == 2 // a handler behind the idle handler fails while it handles inactive
 		pv := vrt.Panics(func() { pl.FireChannelInactive(zzErrUserClose) })
 		vrt.Assert((pv != nil) == (withInactive == 2), "c20-inactive-event-delivered-downstream")
+		if withInactive == 4 {
+			// traffic that still passes the handler after inactive (a farewell written from an inactive handler, a
+			// late write through a kept context) does not start timing idle periods again
+			if kind == 0 {
+				pl.FireChannelRead([]byte{0x7f})
+			} else {
+				pl.FireChannelWrite([]byte{0x7f})
+			}
+		}
 	}
 	vrt.Quiesce()
 	if panicFirst == 3 && g.events >= 1 {
